@@ -28,16 +28,24 @@ type c08Case struct {
 	Qualify   bool       `json:"qualify"`   // module-qualified segments
 	Trailing  bool       `json:"trailing"`  // trailing slash
 	EncodeAll bool       `json:"encodeAll"` // percent-encode every byte of key values
+	LaxKeys   bool       `json:"laxKeys,omitempty"` // leave ':' '@' '!' '$' '*' and the apostrophe of key values as they are (legal in a path segment)
 	Query     string     `json:"query,omitempty"`
 	Mode      string     `json:"mode"` // present | absent-key | absent-container | unknown-name
 	Store     string     `json:"store"`
 }
+
+// laxKeys: key characters that RFC 3986 lets stand in a path segment as they are (pchar) are left alone as well,
+// ':' and '@' among them (set per case by c08Run)
+var laxKeys bool
 
 func encodeKey(k string, all bool) string {
 	var b strings.Builder
 	for i := 0; i < len(k); i++ {
 		c := k[i]
 		unreserved := (c >= 'a' && c <= 'z') || (c >= 'A' && c <= 'Z') || (c >= '0' && c <= '9') || c == '-' || c == '.' || c == '_' || c == '~'
+		if laxKeys && (c == ':' || c == '@' || c == '!' || c == '$' || c == '*' || c == '\'') {
+			unreserved = true
+		}
 		if unreserved && !all {
 			b.WriteByte(c)
 		} else {
@@ -152,6 +160,11 @@ func metaAt(mm *meta.Module, p dm.Path, leaf string) meta.Definition {
 }
 
 func c08Run(c c08Case, o *hx.Obs) {
+	laxKeys = c.LaxKeys
+	defer func() { laxKeys = false }()
+	if c.LaxKeys {
+		o.Class("key characters a path segment may hold are left as they are")
+	}
 	root := c.Module.Root()
 	schemaClasses(o, c.Module)
 	mm, err := loadDM(c.Module)
@@ -440,7 +453,7 @@ func c08Gen(t *rapid.T) c08Case {
 	}
 	c := c08Case{Module: m, Data: data, Store: store, Mode: "present",
 		Qualify: rapid.IntRange(0, 3).Draw(t, "qualify") == 0, Trailing: rapid.IntRange(0, 3).Draw(t, "trailing") == 0,
-		EncodeAll: rapid.IntRange(0, 3).Draw(t, "encodeAll") == 0, Query: rapid.SampledFrom(c08Queries).Draw(t, "query")}
+		EncodeAll: rapid.IntRange(0, 3).Draw(t, "encodeAll") == 0, LaxKeys: rapid.IntRange(0, 2).Draw(t, "laxKeys") == 0, Query: rapid.SampledFrom(c08Queries).Draw(t, "query")}
 	paths := dm.AllPaths(root, data, nil)
 	if len(paths) > 0 {
 		c.Target = paths[rapid.IntRange(0, len(paths)-1).Draw(t, "target")]
